@@ -21,6 +21,8 @@ type c04AtomAt struct {
 }
 
 type c04Loop struct {
+	Fn      *ssa.Function // the function holding the loop: Next itself or a phase helper it calls
+	Frame   *c04Frame2
 	Unit    string // "Month","Day","Hour","Minute","Second"
 	If      *ssa.If
 	Header  *ssa.BasicBlock // target of the back edges
@@ -58,16 +60,24 @@ func (st *c04State) analyseNext() *c04NextA {
 		if !ok || bo.Op != token.AND {
 			return
 		}
-		a, ok := c04BitAtom(na.tb.Term(fr, bo), st.spec)
-		if !ok || c04RoleOf(a.Field) == nil {
-			return
+		bt := na.tb.Term(fr, bo)
+		var found []c04Atom
+		if a, ok := c04BitAtom(bt, st.spec); ok {
+			found = append(found, a)
+		} else {
+			found = c04MaskAtoms(bt, st.spec)
 		}
-		k := a.Kind + "|" + a.Field + "|" + a.Accessor + "|" + fmt.Sprint(a.K) + "|" + FuncName(p, fr.fn)
-		if seen[k] {
-			return
+		for _, a := range found {
+			if c04RoleOf(a.Field) == nil {
+				continue
+			}
+			k := a.Kind + "|" + a.Field + "|" + a.Accessor + "|" + fmt.Sprint(a.K) + "|" + FuncName(p, fr.fn)
+			if seen[k] {
+				continue
+			}
+			seen[k] = true
+			na.atoms = append(na.atoms, c04AtomAt{a, FuncName(p, fr.fn), bo.Pos()})
 		}
-		seen[k] = true
-		na.atoms = append(na.atoms, c04AtomAt{a, FuncName(p, fr.fn), bo.Pos()})
 	})
 	return na
 }
@@ -77,12 +87,19 @@ func (st *c04State) nextClosure() []*ssa.Function {
 	next := st.p.Func("cron", "SpecSchedule.Next")
 	seen := map[*ssa.Function]bool{next: true}
 	order := []*ssa.Function{next}
+	tgt := newC04TermBuilder(st.p)
 	for i := 0; i < len(order); i++ {
 		allInstrs(order[i], func(in ssa.Instruction) {
 			if c, ok := in.(ssa.CallInstruction); ok {
-				if f := staticCallee(c); f != nil && st.p.InModule(f) && !seen[f] {
-					seen[f] = true
-					order = append(order, f)
+				cands := []*ssa.Function{staticCallee(c)}
+				if cands[0] == nil {
+					cands = tgt.Targets(c)
+				}
+				for _, f := range cands {
+					if f != nil && c04Enterable(st.p, f) && !seen[f] {
+						seen[f] = true
+						order = append(order, f)
+					}
 				}
 			}
 		})
@@ -113,11 +130,18 @@ func (st *c04State) checkMatcher() *c04NextA {
 	r, p := st.r, st.p
 	na := st.analyseNext()
 	loaded := map[string]bool{}
+	unresolved := ""
+	tgt := newC04TermBuilder(p)
 	for _, fn := range st.nextClosure() {
 		allInstrs(fn, func(in ssa.Instruction) {
 			if v, ok := in.(ssa.Value); ok {
 				if f, ok := st.specFieldLoad(v); ok {
 					loaded[f] = true
+				}
+			}
+			if c, ok := in.(ssa.CallInstruction); ok && builtinName(c) == "" && staticCallee(c) == nil && len(tgt.Targets(c)) == 0 {
+				if !c.Common().IsInvoke() || strings.HasPrefix(c.Common().Method.Pkg().Path(), p.ModPath) {
+					unresolved = FuncName(p, fn)
 				}
 			}
 		})
@@ -140,8 +164,10 @@ func (st *c04State) checkMatcher() *c04NextA {
 			r.Violation("C04.P3-matcher", construct, p.Pos(bad[0].Pos), fmt.Sprintf("%s tests SpecSchedule.%s (parsed from the %s column) against t.%s() instead of t.%s()", bad[0].Fn, role.Field, role.Field, bad[0].Accessor, role.Accessor))
 		case len(good) > 0:
 			r.OK("C04.P3-matcher", construct, p.Pos(good[0].Pos), fmt.Sprintf("%s: 1<<t.%s() & s.%s", good[0].Fn, role.Accessor, role.Field))
-		case !loaded[role.Field]:
+		case !loaded[role.Field] && unresolved == "":
 			r.Violation("C04.P3-matcher", construct, p.Pos(na.next.Pos()), "Next (and the functions it calls) never reads SpecSchedule."+role.Field+": the "+role.Field+" column of the expression does not restrict the result")
+		case !loaded[role.Field]:
+			r.Undecide("SpecSchedule.%s is not read by Next or the functions it is seen to call, but %s makes a call whose target is not known", role.Field, unresolved)
 		default:
 			r.Undecide("SpecSchedule.%s is read by Next but not in the form 1<<t.%s() & s.%s: matcher pairing cannot be decided", role.Field, role.Accessor, role.Field)
 		}
@@ -196,7 +222,7 @@ func (na *c04NextA) findLoops() {
 	na.loops = map[string]*c04Loop{}
 	unitOfField := map[string]string{"Second": "Second", "Minute": "Minute", "Hour": "Hour", "Month": "Month"}
 	dayValOf := map[*ssa.If]ssa.Value{}
-	allInstrs(na.next, func(in ssa.Instruction) {
+	na.tb.VisitTree(na.root, func(fr *c04Frame2, in ssa.Instruction) {
 		ifi, ok := in.(*ssa.If)
 		if !ok {
 			return
@@ -206,7 +232,7 @@ func (na *c04NextA) findLoops() {
 		var clear, set *ssa.BasicBlock
 		var dayCall *ssa.Call
 		dayNeg := false
-		ct := na.tb.Term(na.root, ifi.Cond)
+		ct := na.tb.Term(fr, ifi.Cond)
 		if op, x, y, ok := c04CmpTerm(ct, true); ok {
 			if _, isAtom := c04BitAtom(y, st.spec); isAtom {
 				x, y = y, x
@@ -273,7 +299,7 @@ func (na *c04NextA) findLoops() {
 					}
 					for _, in2 := range blk.Instrs {
 						if bo, ok := in2.(*ssa.BinOp); ok && bo.Op == token.AND {
-							if a, ok := c04BitAtom(na.tb.Term(na.root, bo), st.spec); ok && a.Kind == "match" {
+							if a, ok := c04BitAtom(na.tb.Term(fr, bo), st.spec); ok && a.Kind == "match" {
 								dom = dom || a.Field == "Dom"
 								dow = dow || a.Field == "Dow"
 							}
@@ -286,9 +312,9 @@ func (na *c04NextA) findLoops() {
 				dayVal = cond
 			}
 			dom, dow := dayVal != nil, dayVal != nil
-			visited := dayVal != nil || na.tb.VisitCall(na.root, call, func(fr *c04Frame2, in2 ssa.Instruction) {
+			visited := dayVal != nil || na.tb.VisitCall(fr, call, func(fr2 *c04Frame2, in2 ssa.Instruction) {
 				if bo, ok := in2.(*ssa.BinOp); ok && bo.Op == token.AND {
-					if a, ok := c04BitAtom(na.tb.Term(fr, bo), st.spec); ok && a.Kind == "match" {
+					if a, ok := c04BitAtom(na.tb.Term(fr2, bo), st.spec); ok && a.Kind == "match" {
 						dom = dom || a.Field == "Dom"
 						dow = dow || a.Field == "Dow"
 					}
@@ -307,7 +333,7 @@ func (na *c04NextA) findLoops() {
 				set, clear = b.Succs[1], b.Succs[0]
 			}
 		}
-		l := &c04Loop{Unit: unit, If: ifi, Clear: clear, Set: set, DayCall: dayCall, DayNeg: dayNeg, DayVal: dayValOf[ifi]}
+		l := &c04Loop{Fn: fr.fn, Frame: fr, Unit: unit, If: ifi, Clear: clear, Set: set, DayCall: dayCall, DayNeg: dayNeg, DayVal: dayValOf[ifi]}
 		// header: the innermost dominator of the branch (the block itself first) whose natural loop
 		// contains exactly one of the two successors
 		for h := b; h != nil; h = h.Idom() {
@@ -346,7 +372,7 @@ func (st *c04State) checkDayTable(na *c04NextA) {
 		return
 	}
 	var callee *ssa.Function
-	what := "the day condition computed in " + FuncName(p, na.next)
+	what := "the day condition computed in " + FuncName(p, l.Fn)
 	wpos := c04IfPos(l.If)
 	if l.DayCall != nil {
 		callee = staticCallee(l.DayCall)
@@ -359,10 +385,29 @@ func (st *c04State) checkDayTable(na *c04NextA) {
 	var wrong, wrongNeg []string
 	for m := 0; m < 16; m++ {
 		domStar, dowStar, dom, dow := m&8 != 0, m&4 != 0, m&2 != 0, m&1 != 0
-		ev := &c04Eval{InModule: p.InModule}
+		ev := &c04Eval{InModule: c04InMod(p)}
 		ev.Resolve = func(t *c04T) (any, bool) {
 			a, ok := c04BitAtom(t, st.spec)
 			if !ok {
+				// a mask over several fields at once: (s.Dom|s.Dow)&K is K iff one of them carries the bit
+				if ms := c04MaskAtoms(t, st.spec); len(ms) > 0 {
+					val := uint64(0)
+					for _, m := range ms {
+						switch m.Field {
+						case "Dom":
+							if domStar {
+								val = m.K
+							}
+						case "Dow":
+							if dowStar {
+								val = m.K
+							}
+						default:
+							return nil, false
+						}
+					}
+					return c04Int{V: val, Bits: 64}, true
+				}
 				return nil, false
 			}
 			on := false
@@ -389,7 +434,13 @@ func (st *c04State) checkDayTable(na *c04NextA) {
 		if callee != nil {
 			var args []any
 			for _, a := range l.DayCall.Call.Args {
-				args = append(args, c04SymV{T: na.tb.Term(na.root, a)})
+				args = append(args, c04SymV{T: na.tb.Term(l.Frame, a)})
+			}
+			ev.RootBind = nil
+			if mc, ok := l.DayCall.Call.Value.(*ssa.MakeClosure); ok {
+				for _, bv := range mc.Bindings {
+					ev.RootBind = append(ev.RootBind, c04SymV{T: na.tb.Term(l.Frame, bv)})
+				}
 			}
 			res, err = ev.Run(callee, args)
 		} else {
@@ -408,7 +459,7 @@ func (st *c04State) checkDayTable(na *c04NextA) {
 				}
 				return nil, false
 			}
-			res, err = ev.RunRegion(na.next, l.Header, init, l.If)
+			res, err = ev.RunRegion(l.Fn, l.Header, init, l.If)
 			if err == nil {
 				// res is the value of the branch condition itself here; undo the NOT stripping done for DayNeg
 				if bv, ok := res.(bool); ok && l.DayNeg {
@@ -571,13 +622,18 @@ func (st *c04State) checkSearch(na *c04NextA) {
 		l.Clear, l.Set = l.Set, l.Clear
 		l.IsLoop, l.Flipped = l.Flipped, l.IsLoop
 	}
+	// blocks of Next that the top of the search must dominate: the headers of the loops written
+	// in Next and the call sites of the phase helpers holding the others
 	var headers []*ssa.BasicBlock
 	for _, l := range loops {
-		if l.Header != nil {
-			headers = append(headers, l.Header)
+		if sb := na.siteInNext(l); sb != nil {
+			headers = append(headers, sb)
 		}
 	}
 	isTop := func(w *ssa.BasicBlock) bool {
+		if w.Parent() != next {
+			return false
+		}
 		for _, h := range headers {
 			if !w.Dominates(h) {
 				return false
@@ -623,15 +679,37 @@ func (st *c04State) checkSearch(na *c04NextA) {
 				tb.Leaves[ph] = &c04T{Op: "leaf", Name: fmt.Sprintf("carried:%d", i), Src: ph}
 			}
 		}
-		if nPhi != 1 {
+		root := tb.Root(l.Fn)
+		var backs []*c04T
+		backOf := map[*ssa.BasicBlock]*c04T{}
+		if nPhi == 0 {
+			// the loop's variables may live in a local struct: the instant is the one time.Time
+			// field of such a struct that the loop stores to
+			al, fld, n := c04MemInstant(l)
+			if n != 1 {
+				r.Undecide("Next %s loop: the loop does not carry exactly one time.Time value (%d in variables, %d in struct fields)", u, nPhi, n)
+				continue
+			}
+			for k, other := range c04MemStoredFields(l, al) {
+				name := fmt.Sprintf("carried:m%d", k)
+				if other == fld {
+					name = "T"
+				}
+				tb.MemLeaves[c04MemKey{al, other, l.Header}] = &c04T{Op: "leaf", Name: name}
+			}
+			for _, pb := range l.Header.Preds {
+				if l.Body[pb] {
+					bt := tb.MemAt(root, al, fld, pb, len(pb.Instrs))
+					backs = append(backs, bt)
+					backOf[pb] = bt
+				}
+			}
+		} else if nPhi != 1 {
 			r.Undecide("Next %s loop: the loop does not carry exactly one time.Time value (%d found)", u, nPhi)
 			continue
 		}
-		root := tb.Root(next)
-		var backs []*c04T
-		backOf := map[*ssa.BasicBlock]*c04T{}
 		for i, pb := range l.Header.Preds {
-			if l.Body[pb] {
+			if nPhi == 1 && l.Body[pb] {
 				bt := tb.Term(root, loopPhi.Edges[i])
 				backs = append(backs, bt)
 				backOf[pb] = bt
@@ -940,6 +1018,7 @@ func (lc *c04LoopCtx) checkCarry(isTop func(*ssa.BasicBlock) bool, floor int64) 
 		toTop bool
 	}
 	var exits []exit
+	otherExits, flagIgnored := false, false
 	var blocks []*ssa.BasicBlock
 	for b := range l.Body {
 		blocks = append(blocks, b)
@@ -954,10 +1033,38 @@ func (lc *c04LoopCtx) checkCarry(isTop func(*ssa.BasicBlock) bool, floor int64) 
 			continue
 		}
 		for i, s := range b.Succs {
-			if !l.Body[s] && isTop(s) {
+			if l.Body[s] {
+				continue
+			}
+			if l.Fn == lc.na.next {
+				if isTop(s) {
+					exits = append(exits, exit{ifi, i == 0})
+				}
+				continue
+			}
+			// the loop lives in a phase helper: the edge leaves towards a return whose flag result
+			// the caller (Next) branches on to go back to the top of the search
+			otherExits = true
+			toTop, ignored := lc.flagReturnToTop(s, isTop)
+			if toTop {
 				exits = append(exits, exit{ifi, i == 0})
 			}
+			if ignored {
+				flagIgnored = true
+			}
 		}
+	}
+	if len(exits) == 0 && l.Fn != lc.na.next {
+		if flagIgnored {
+			r.Violation(rule, construct, p.Pos(c04IfPos(l.If)), FuncName(p, l.Fn)+" reports the carry of the "+u+" loop through a boolean result, but Next never looks at that result of the call: when advancing "+u+" carries into the next higher field the search is not restarted, so Next returns instants on days/hours the expression excludes")
+			return
+		}
+		if otherExits {
+			r.Undecide("Next %s loop (in %s): the loop is left on other edges than the match, but how the caller learns of the carry (flag result branched on to restart the search) was not recognised", u, FuncName(p, l.Fn))
+		} else {
+			r.Undecide("Next %s loop (in %s): no carry exit found in the helper: the caller may detect the carry itself, which is not decided", u, FuncName(p, l.Fn))
+		}
+		return
 	}
 	if len(exits) == 0 {
 		r.Violation(rule, construct, p.Pos(c04IfPos(l.If)), "no path from the "+u+" loop back to the top of the search: when advancing "+u+" carries into the next higher field that field (and the year limit) is not verified again, so Next returns instants on days/hours the expression excludes")
@@ -1184,7 +1291,7 @@ func (st *c04State) checkLimit(na *c04NextA) {
 			return
 		}
 		for _, l := range na.loops {
-			if l.Header != nil && !ifi.Block().Dominates(l.Header) {
+			if sb := na.siteInNext(l); sb != nil && !ifi.Block().Dominates(sb) {
 				msg = "the year-limit test is not at the top of the search (it does not dominate the " + l.Unit + " loop)"
 			}
 		}
@@ -1196,7 +1303,7 @@ func (st *c04State) checkLimit(na *c04NextA) {
 				if n, _, ok := c04TimeCall(c); ok && (n == "After" || n == "Before" || n == "Compare" || n == "Sub" || n == "Equal") {
 					other = true
 				}
-				if f := staticCallee(c); f != nil && p.InModule(f) {
+				if f := staticCallee(c); f != nil && c04Enterable(p, f) {
 					other = true // a helper may hold the test in a form the term view does not expose
 				}
 			}
@@ -1289,8 +1396,8 @@ func (st *c04State) checkZone(na *c04NextA) {
 	// the instant the search starts from: entry value of the time phi of the outermost search loop
 	var top *ssa.BasicBlock
 	for _, l := range na.loops {
-		if l.Header != nil && (top == nil || l.Header.Dominates(top)) {
-			top = l.Header
+		if sb := na.siteInNext(l); sb != nil && (top == nil || sb.Dominates(top)) {
+			top = sb
 		}
 	}
 	var start ssa.Value
@@ -1314,14 +1421,60 @@ func (st *c04State) checkZone(na *c04NextA) {
 			}
 		}
 	}
-	if start == nil {
-		r.Undecide("Next: the instant the search starts from could not be identified")
-		return
-	}
-	// header phis contribute their entry edges only (the value before a loop is entered)
 	tb := newC04TermBuilder(p)
 	root := tb.Root(next)
-	startT := c04EntryTerm(tb, root, start)
+	var startT *c04T
+	if start == nil {
+		// the search state may live in a local struct: take the content of its time field
+		// where the outermost loop of Next is entered
+		var outer *ssa.BasicBlock
+		for b := top; b != nil; b = b.Idom() {
+			for _, pb := range b.Preds {
+				if b.Dominates(pb) {
+					outer = b
+				}
+			}
+		}
+		if outer != nil {
+			var cand []c04MemKey
+			allInstrs(next, func(in ssa.Instruction) {
+				if st, ok := in.(*ssa.Store); ok {
+					if fa, ok := st.Addr.(*ssa.FieldAddr); ok && c04IsTimeType(st.Val.Type()) {
+						if a, ok := fa.X.(*ssa.Alloc); ok && c04LocalStructOnly(a) {
+							k := c04MemKey{a, fa.Field, nil}
+							dup := false
+							for _, c := range cand {
+								if c == k {
+									dup = true
+								}
+							}
+							if !dup {
+								cand = append(cand, k)
+							}
+						}
+					}
+				}
+			})
+			if len(cand) == 1 {
+				var alts []*c04T
+				for _, pb := range outer.Preds {
+					if !outer.Dominates(pb) {
+						alts = append(alts, tb.MemAt(root, cand[0].Alloc, cand[0].Field, pb, len(pb.Instrs)))
+					}
+				}
+				if len(alts) > 0 {
+					startT = c04Choice(alts)
+				}
+			}
+		}
+		if startT == nil {
+			r.Undecide("Next: the instant the search starts from could not be identified")
+			return
+		}
+	} else {
+		// header phis contribute their entry edges only (the value before a loop is entered)
+		startT = c04EntryTerm(tb, root, start)
+	}
 	// (a) conversion into the schedule's location
 	hasIn := startT.contains(func(x *c04T) bool {
 		return x.Op == "tm:In" && len(x.Args) == 2 && x.Args[1].contains(isSchedLoc)
@@ -1531,4 +1684,183 @@ func c04EntryEdge(tb *c04TermBuilder, fr *c04Frame2, v ssa.Value, depth int) *c0
 		}
 	}
 	return tb.Term(fr, v)
+}
+
+// siteInNext: the block of Next a loop belongs to — its header if the loop is
+// written in Next, else the block of the call (in Next) that leads to the
+// helper holding it.
+func (na *c04NextA) siteInNext(l *c04Loop) *ssa.BasicBlock {
+	if l.Header == nil && l.Fn == na.next {
+		return nil
+	}
+	if l.Fn == na.next {
+		return l.Header
+	}
+	fr := l.Frame
+	for fr != nil && fr.parent != nil && fr.parent.parent != nil {
+		fr = fr.parent
+	}
+	if fr == nil || fr.call == nil {
+		return nil
+	}
+	return fr.call.Block()
+}
+
+// flagReturnToTop: block s (outside the helper's loop) leads to a return of the
+// helper in which some boolean result is the constant true, and Next branches
+// on that result of the helper call with its true edge going to the top of the
+// search (false edge: goes on).
+func (lc *c04LoopCtx) flagReturnToTop(s *ssa.BasicBlock, isTop func(*ssa.BasicBlock) bool) (toTop, ignored bool) {
+	fr := lc.l.Frame
+	if fr == nil || fr.parent == nil || fr.call == nil {
+		return false, false
+	}
+	// follow jump-only blocks to the return
+	var ret *ssa.Return
+	for blk, hops := s, 0; blk != nil && hops < 6; hops++ {
+		n := len(blk.Instrs)
+		if n == 0 {
+			break
+		}
+		if rt, ok := blk.Instrs[n-1].(*ssa.Return); ok {
+			ret = rt
+			break
+		}
+		if _, ok := blk.Instrs[n-1].(*ssa.Jump); ok {
+			blk = blk.Succs[0]
+			continue
+		}
+		break
+	}
+	if ret == nil {
+		return false, false
+	}
+	nFlags, nUnused := 0, 0
+	for j, rv := range ret.Results {
+		k, isK := rv.(*ssa.Const)
+		if !isK || k.Value == nil || k.Value.String() != "true" {
+			// the flag may be a phi/variable whose value on this edge is true
+			if ph, ok := rv.(*ssa.Phi); ok && ph.Block() == ret.Block() {
+				val := ssa.Value(nil)
+				for i, pb := range ph.Block().Preds {
+					if pb == s || reachableFrom(s, map[*ssa.BasicBlock]bool{ph.Block(): true})[pb] {
+						val = ph.Edges[i]
+					}
+				}
+				if kk, ok := val.(*ssa.Const); !ok || kk.Value == nil || kk.Value.String() != "true" {
+					continue
+				}
+			} else {
+				continue
+			}
+		}
+		nFlags++
+		top, unused := lc.flagUse(fr, j, len(ret.Results), isTop, 0)
+		if top {
+			return true, false
+		}
+		if unused {
+			nUnused++
+		}
+	}
+	return false, nFlags > 0 && nFlags == nUnused
+}
+
+// flagUse: result #j of the call that entered frame fr — is it branched on in
+// Next with the true edge going to the top of the search? Wrappers that return
+// the helper's results unchanged are looked through.
+func (lc *c04LoopCtx) flagUse(fr *c04Frame2, j, nres int, isTop func(*ssa.BasicBlock) bool, depth int) (toTop, unused bool) {
+	call, ok := fr.call.(*ssa.Call)
+	if !ok || fr.parent == nil || depth > 4 {
+		return false, false
+	}
+	var flag ssa.Value
+	if nres == 1 {
+		flag = call
+	} else {
+		flag = callResult(call, j)
+	}
+	if flag == nil || len(c04RealRefs(flag)) == 0 {
+		return false, true // the result is dropped (assigned to _ or never extracted)
+	}
+	for _, ref := range refs(flag) {
+		switch x := ref.(type) {
+		case *ssa.If:
+			if fr.parent.fn == lc.na.next && isTop(x.Block().Succs[0]) {
+				return true, false
+			}
+		case *ssa.UnOp:
+			if x.Op == token.NOT {
+				for _, r2 := range refs(x) {
+					if ifi, ok := r2.(*ssa.If); ok && fr.parent.fn == lc.na.next && isTop(ifi.Block().Succs[1]) {
+						return true, false
+					}
+				}
+			}
+		case *ssa.Return:
+			// a wrapper handing the result on: which of its results?
+			for jj, rv := range x.Results {
+				if rv == flag && fr.parent.parent != nil {
+					if top, un := lc.flagUse(fr.parent, jj, len(x.Results), isTop, depth+1); top || un {
+						return top, un
+					}
+				}
+			}
+		}
+	}
+	return false, false
+}
+
+// c04MemStoredFields: the fields of local struct al stored to inside the loop (sorted).
+func c04MemStoredFields(l *c04Loop, al *ssa.Alloc) []int {
+	set := map[int]bool{}
+	for b := range l.Body {
+		for _, in := range b.Instrs {
+			if st, ok := in.(*ssa.Store); ok {
+				if fa, ok := st.Addr.(*ssa.FieldAddr); ok && fa.X == ssa.Value(al) {
+					set[fa.Field] = true
+				}
+			}
+		}
+	}
+	var out []int
+	for f := range set {
+		out = append(out, f)
+	}
+	sort.Ints(out)
+	return out
+}
+
+// c04MemInstant: the time.Time field of a local struct (only accessed through
+// its fields) that the loop stores to; n = number of such fields found.
+func c04MemInstant(l *c04Loop) (al *ssa.Alloc, field int, n int) {
+	seen := map[c04MemKey]bool{}
+	var blocks []*ssa.BasicBlock
+	for b := range l.Body {
+		blocks = append(blocks, b)
+	}
+	sort.Slice(blocks, func(i, j int) bool { return blocks[i].Index < blocks[j].Index })
+	for _, b := range blocks {
+		for _, in := range b.Instrs {
+			st, ok := in.(*ssa.Store)
+			if !ok {
+				continue
+			}
+			fa, ok := st.Addr.(*ssa.FieldAddr)
+			if !ok {
+				continue
+			}
+			a, ok := fa.X.(*ssa.Alloc)
+			if !ok || !c04LocalStructOnly(a) || !c04IsTimeType(st.Val.Type()) {
+				continue
+			}
+			k := c04MemKey{a, fa.Field, nil}
+			if !seen[k] {
+				seen[k] = true
+				al, field = a, fa.Field
+				n++
+			}
+		}
+	}
+	return
 }
